@@ -1,4 +1,5 @@
 import Restic.Model.Traverse
+import Restic.Gen.Source
 /-!
 # C42 — Traversals visit exactly the reachable trees and blobs
 
@@ -1107,5 +1108,18 @@ example : let s := run exCfg (checker true) 100 [] (init [5] [] [])
     the fix) the same input reaches the "tree was not read completely" panic. -/
 theorem checker_unfixed_panics :
     (run exCfg (checker false) 100 [] (init [5] [] [])).status = .panicked := by decide
+
+/-! ### T1: facts regenerated from the source on every run -/
+
+/-- `loadTreeWorker` asks the collector for the subtrees only after `process` has run (so the
+    consumer's reading of the iterator is what fills it), `FindUsedBlobs`' skip callback tests
+    before it inserts, and `checkTree` still looks up blobs and checks for null ids -/
+theorem traversal_call_order :
+    (Restic.Gen.loadTreeWorker_calls.idxOf "LoadTree" < Restic.Gen.loadTreeWorker_calls.idxOf "process") ∧
+    (Restic.Gen.loadTreeWorker_calls.idxOf "process" < Restic.Gen.loadTreeWorker_calls.idxOf "collectSubtrees") ∧
+    "collectSubtrees" ∈ Restic.Gen.loadTreeWorker_calls ∧
+    (Restic.Gen.FindUsedBlobs_calls.idxOf "blobs.Has" < Restic.Gen.FindUsedBlobs_calls.idxOf "blobs.Insert") ∧
+    "StreamTrees" ∈ Restic.Gen.FindUsedBlobs_calls ∧
+    "c.repo.LookupBlobSize" ∈ Restic.Gen.checkTree_calls := by decide
 
 end Restic.Props.C42
